@@ -1256,6 +1256,10 @@ impl LsmTree {
                         break 'inner compaction;
                     } else {
                         COMPACTION_THREAD_NO_COMPACTION.click();
+                        #[cfg(rescrv_blue_verif)]
+                        if crate::verif::return_when_idle() {
+                            return Ok(());
+                        }
                         mutex = self.compact.wait(mutex).unwrap();
                     }
                 }
@@ -1265,6 +1269,10 @@ impl LsmTree {
                 let version = self.take_snapshot();
                 let _ = version.version.release_compaction(compaction);
                 return Err(err);
+            }
+            #[cfg(rescrv_blue_verif)]
+            if crate::verif::return_after_step() {
+                return Ok(());
             }
         }
     }
@@ -1621,6 +1629,44 @@ impl LsmTree {
         let cursor = PruningCursor::new(version_scan, u64::MAX)?;
         let cursor = BoundsCursor::new(cursor, start_bound, end_bound)?;
         Ok(cursor)
+    }
+}
+
+#[cfg(rescrv_blue_verif)]
+impl LsmTree {
+    /// Wake every thread parked on `stall` or `compact`.
+    pub fn verif_wake_all(&self) {
+        let _mutex = self.compaction.lock().unwrap();
+        self.stall.notify_all();
+        self.compact.notify_all();
+    }
+
+    /// True iff an ingest arriving now would wait for compaction.
+    pub fn verif_would_stall(&self) -> bool {
+        self.take_snapshot().version.should_stall_ingest()
+    }
+
+    /// True iff the current version is at or over a mandatory-compaction threshold.
+    pub fn verif_mandatory(&self) -> bool {
+        self.take_snapshot()
+            .version
+            .should_perform_mandatory_compaction()
+    }
+
+    /// The metadata of every SST of the current version, by level.
+    pub fn verif_levels(&self) -> Vec<Vec<SstMetadata>> {
+        let version = self.take_snapshot();
+        version
+            .version
+            .levels
+            .iter()
+            .map(|l| l.ssts.iter().map(|s| (**s).clone()).collect())
+            .collect()
+    }
+
+    /// The number of compactions that have been selected and not yet applied or released.
+    pub fn verif_ongoing(&self) -> usize {
+        self.take_snapshot().version.ongoing.lock().unwrap().len()
     }
 }
 
